@@ -550,8 +550,9 @@ def dot(a, b, axis=None):
         if len(a.N) < len(b.N):
             raise ShapeMismatch(
                 'Number of the modes of the first tensor must be equal with the second.')
-        # if a.N[axis] != b.N:
-        #     raise Exception('Dimension mismatch.')
+        if [a.N[i] for i in axis] != b.N:
+            raise ShapeMismatch(
+                'The modes of the first tensor selected by axis must be equal with the modes of the second.')
 
         k = 0  # index for the tensor b
         cores_new = []
